@@ -60,6 +60,8 @@ inductive Op where
   | remove (auths : List Addr) (a : Addr)
   | transferOwnership (auths : List Addr) (new : Addr)
   | execute (auths : List Addr) (operator contract : Addr) (func : Bytes) (args : List ScVal)
+  /-- the owner upgrades the contract to its own code and runs the (empty) migration -/
+  | upgradeMigrate (auths : List Addr)
 
 inductive Obs where
   | ok (evs : List Event)
@@ -84,6 +86,12 @@ def step {τ : Type} (tgt : Target τ) (w : World τ) : Op → World τ × Obs
   | .execute au o c f args => match execute tgt w.self w.st w.ts au o c f args with
     | .ok (ts', v) => ({ w with ts := ts' }, .value v)
     | .error e => (w, .err e)
+  | .upgradeMigrate au => if w.st.owner ∈ au then (w, .ok []) else (w, .err .unauthorized)
+
+/-- upgrade to the same code + the empty migration changes nothing -/
+theorem step_upgradeMigrate_fst {τ : Type} (tgt : Target τ) (w : World τ) (au : List Addr) :
+    (step tgt w (.upgradeMigrate au)).1 = w := by
+  simp only [step]; split <;> rfl
 
 def run {τ : Type} (tgt : Target τ) (w : World τ) : List Op → World τ × List Obs
   | [] => (w, [])
